@@ -225,9 +225,13 @@ def run(tier, seed):
     chunks = [lens[k::nproc] for k in range(nproc)]
     hist = [("same-stream x9", (0,) * 9, 9), ("A,7xB,A", (0, 1, 1, 1, 1, 1, 1, 1, 0), 9), ("same-stream x9 short", (0,) * 9, 3),
             ("A,15xB,A", (0,) + (1,) * 15 + (0,), 7), ("alternating", (0, 1) * 5, 13)]
+    # (W) an abandoned message and then a full turn of the 3-bit counter (C04's wrap-around worker, seeded C03-i)
+    from . import c04
+    c04._G.update(R=R, D=D, tier=tier, pgns=pg)
     ctx = mp.get_context("fork")
     with ctx.Pool(nproc) as pool:
-        jobs = [pool.apply_async(_len_worker, (c,)) for c in chunks] + [pool.apply_async(_history_worker, (hh,)) for hh in hist]
+        jobs = [pool.apply_async(_len_worker, (c,)) for c in chunks] + [pool.apply_async(_history_worker, (hh,)) for hh in hist] + \
+               [pool.apply_async(c04._wrap_worker, (n0,)) for n0 in (13, 20)]
         for j in jobs:
             part = j.get()
             for v in part["violations"]:
@@ -246,6 +250,9 @@ def run(tier, seed):
 
 
 def replay(r):
+    if r["kind"] == "history" and r.get("job", [None])[0] == "wrap":
+        from . import c04
+        return c04.replay(r)
     from .plain import plain
     N = plain()
     if r["kind"] == "fast":
